@@ -197,6 +197,8 @@ pub(crate) async fn peer_connected(
         props = Some(connect_ops);
     }
     let peer_id = ready_exchange(&mut raw_socket, backend.socket_type(), props).await?;
+    #[cfg(feature = "verif-hooks")]
+    crate::__verif::yield_point("handshake.before_register").await;
     backend.peer_connected(&peer_id, raw_socket).await;
     Ok(peer_id)
 }
